@@ -274,13 +274,42 @@ def traversal_idiom(index, ctx):
     if not pops and frontier_form(ctx, F, fn, succ_vars, implied_conditions_fn=implied_conditions, kind_ok=lambda t, cur: _kind_test(index, F, t, cur)):
         _variable_mapping(index, ctx, F)
         return
-    if len(pops) != 1 or not (succ_vars or colls):
+    cursor = worklist = None
+    if len(pops) == 1:
+        cursor = pops[0].targets[0].id
+        worklist = base_name(pops[0].value.func.value)
+        init_name = worklist
+    else:
+        # other drivers that visit everything that is pushed:
+        #  (L) level by level:  while level: nxt = []; for node in level: ... nxt.append(child) ...; level = nxt
+        #  (C) a growing list read through an index:  i = 0; while i < len(nodes): node = nodes[i]; i += 1; ... nodes.append(child)
+        for w in [x for x in ast.walk(fn) if isinstance(x, ast.While)]:
+            if isinstance(w.test, ast.Name):
+                fr = w.test.id
+                fors = [f for f in w.body if isinstance(f, ast.For) and isinstance(f.iter, ast.Name) and f.iter.id == fr and isinstance(f.target, ast.Name)]
+                re_ = [s_ for s_ in w.body if isinstance(s_, ast.Assign) and isinstance(s_.targets[0], ast.Name) and s_.targets[0].id == fr and isinstance(s_.value, ast.Name)]
+                if len(fors) == 1 and len(re_) == 1 and w.body[-1] is re_[0]:
+                    nxt = re_[0].value.id
+                    fresh = [s_ for s_ in w.body if isinstance(s_, ast.Assign) and isinstance(s_.targets[0], ast.Name) and s_.targets[0].id == nxt
+                             and ((isinstance(s_.value, (ast.List, ast.Set)) and not s_.value.elts) or (isinstance(s_.value, ast.Call) and norm_text(s_.value.func) in ("list", "set", "deque") and not s_.value.args))]
+                    if len(fresh) == 1 and w.body.index(fresh[0]) < w.body.index(fors[0]):
+                        cursor, worklist, init_name = fors[0].target.id, nxt, fr
+            elif isinstance(w.test, ast.Compare) and len(w.test.ops) == 1 and isinstance(w.test.ops[0], ast.Lt) and isinstance(w.test.left, ast.Name) \
+                    and isinstance(w.test.comparators[0], ast.Call) and norm_text(w.test.comparators[0].func) == "len" and len(w.test.comparators[0].args) == 1 \
+                    and isinstance(w.test.comparators[0].args[0], ast.Name):
+                ix, coll_ = w.test.left.id, w.test.comparators[0].args[0].id
+                reads = [s_ for s_ in w.body if isinstance(s_, ast.Assign) and isinstance(s_.targets[0], ast.Name) and isinstance(s_.value, ast.Subscript)
+                         and norm_text(s_.value.value) == coll_ and norm_text(s_.value.slice) == ix]
+                steps = [s_ for s_ in w.body if isinstance(s_, ast.AugAssign) and isinstance(s_.op, ast.Add) and isinstance(s_.target, ast.Name) and s_.target.id == ix
+                         and isinstance(s_.value, ast.Constant) and s_.value.value == 1]
+                if len(reads) == 1 and len(steps) == 1 and not any(isinstance(x, (ast.Break,)) for x in ast.walk(w)):
+                    cursor, worklist, init_name = reads[0].targets[0].id, coll_, coll_
+    if cursor is None or not (succ_vars or colls):
         ctx.undecided("R4", f"{F.short}: worklist", "worklist pop / successor variables not recognised", F.loc())
         return
-    cursor = pops[0].targets[0].id
-    worklist = base_name(pops[0].value.func.value)
     # roots: worklist initialised from roots minus excluded
-    init = [n for n in ast.walk(fn) if isinstance(n, ast.Assign) and isinstance(n.targets[0], ast.Name) and n.targets[0].id == worklist]
+    init = [n for n in ast.walk(fn) if isinstance(n, ast.Assign) and isinstance(n.targets[0], ast.Name) and n.targets[0].id == init_name
+            and not (isinstance(n.value, ast.Name))]
     roots_ok = bool(init) and any((isinstance(x, ast.BinOp) and isinstance(x.op, ast.Sub)) or (isinstance(x, ast.Call) and isinstance(x.func, ast.Attribute) and x.func.attr == "difference")
                                   for x in ast.walk(init[0].value))
     ctx.require(roots_ok, "R4", f"{F.short}: traversal starts from the roots minus the excluded nodes", f"`{norm_text(init[0]) if init else ''}`",
@@ -369,14 +398,41 @@ def traversal_idiom(index, ctx):
 
         ok = len(tests) == 1 and kind_test(tests[0].ast.test)
         ctx.require(ok, "R4", f"{F.short}: collection of leaf accumulators", "conditional on the node kind only", f"`{norm_text(n.ast)}` is guarded by {[norm_text(t.ast.test) for t in tests]}", F.loc(n.ast))
-    ctx.floor("collection sites", len(coll), 1)
+    n_coll = len(coll)
+    if not coll:
+        # the traversal may hand every visited node to its caller (`yield node`), which keeps the leaf accumulators:
+        # `{n for n in walk(...) if <kind test on n>}`
+        yields = [n for n in cfg.stmt_nodes() if n.kind == "stmt" and isinstance(n.ast, ast.Expr) and isinstance(n.ast.value, ast.Yield) and isinstance(n.ast.value.value, ast.Name)
+                  and n.ast.value.value.id == cursor]
+        unconditional = all(not [t for t, _ in cfg.guards_of(n) if t.kind == "test" and isinstance(t.ast, ast.If) and cursor in names_read(t.ast.test)] for n in yields)
+        if yields and unconditional:
+            for g_ in index.all_functions("torchjd.autojac"):
+                for c_ in ast.walk(g_.node):
+                    if isinstance(c_, (ast.SetComp, ast.ListComp, ast.GeneratorExp)) and len(c_.generators) == 1 and isinstance(c_.generators[0].iter, ast.Call) \
+                            and isinstance(c_.generators[0].iter.func, ast.Name) and c_.generators[0].iter.func.id == F.name and isinstance(c_.generators[0].target, ast.Name):
+                        v_ = c_.generators[0].target.id
+                        okc = isinstance(c_.elt, ast.Name) and c_.elt.id == v_ and len(c_.generators[0].ifs) == 1 and _kind_test(index, g_, c_.generators[0].ifs[0], v_)
+                        n_coll += 1
+                        ctx.require(okc, "R4", f"{g_.short}: collection of leaf accumulators", "every visited node is yielded; the consumer keeps those of the leaf-accumulator kind",
+                                    f"`{norm_text(c_)[:90]}` does not keep exactly the visited nodes whose kind is the leaf accumulator", g_.loc(c_))
+    ctx.floor("collection sites", n_coll, 1)
     _variable_mapping(index, ctx, F)
 
 
 def _variable_mapping(index, ctx, F):
-    callers = [f for f in index.all_functions("torchjd.autojac") if any(isinstance(x, ast.Call) and isinstance(x.func, ast.Name) and x.func.id == F.name for x in ast.walk(f.node)) and f is not F]
+    fns = [f for f in index.all_functions("torchjd.autojac") if f.parent is None]
+    calls = lambda f, name: any(isinstance(x, ast.Call) and isinstance(x.func, ast.Name) and x.func.id == name for x in ast.walk(f.node))
+    callers = [f for f in fns if calls(f, F.name) and f is not F]
+    # ... or the callers of those (the traversal may sit two helpers deep)
+    reach, work = list(callers), list(callers)
+    while work and len(reach) < 8:
+        g = work.pop()
+        for f in fns:
+            if f is not F and f not in reach and calls(f, g.name) and f.module is F.module:
+                reach.append(f)
+                work.append(f)
     has = lambda f: any((isinstance(x, ast.Attribute) and x.attr == "variable") or (isinstance(x, ast.Constant) and x.value == "variable") for x in ast.walk(f.node))
-    ok = has(F) or any(has(f) for f in callers)
+    ok = has(F) or any(has(f) for f in reach)
     ctx.require(ok, "R4", "leaves are the collected nodes' .variable", "mapping present", "the collected AccumulateGrad nodes are not mapped to their .variable", callers[0].loc() if callers else F.loc())
 
 
@@ -413,8 +469,7 @@ def frontier_form(ctx, F, fn, succ_vars, implied_conditions_fn, kind_ok) -> bool
     # children pushed into `nxt`
     adds = [c for c in ast.walk(fors[0]) if isinstance(c, ast.Call) and isinstance(c.func, ast.Attribute) and c.func.attr in ("add", "update") and base_name(c.func.value) == nxt]
     if not adds:
-        ctx.undecided("R4", key, f"no successor is added to the next frontier `{nxt}`", F.loc(w))
-        return True
+        return False  # not the set-based form (successors may be pushed one by one: the worklist reading handles that)
     from ..cfg import cfg_of as _cfg_of
 
     cfg = _cfg_of(fn)
